@@ -754,6 +754,9 @@ impl Worker {
         let mut file = self.active_file.take();
         let mut file_set = ActiveFileSet::empty(&self.metrics, &self.dir);
 
+        // The file set is only read when it's needed
+        let file_set_is_read = file.is_none();
+
         if file.is_none() {
             if let Err(err) = self.fs.create_dir_all(Path::new(&self.dir)) {
                 span.complete_with(emit::span::completion::from_fn(|span| {
@@ -819,6 +822,26 @@ impl Worker {
         let mut file = if let Some(file) = file {
             file
         } else {
+            // If the active file is being rolled then the file set hasn't been read yet
+            // Retention needs to see every file in the set, not just the one being replaced
+            if !file_set_is_read {
+                let _ = file_set
+                    .read(&self.fs, &self.file_prefix, &self.file_ext)
+                    .map_err(|err| {
+                        self.metrics.file_set_read_failed.increment();
+
+                        emit::warn!(
+                            rt: emit::runtime::internal(),
+                            "failed to files in read {path}: {err}",
+                            #[emit::as_debug]
+                            path: &file_set.dir,
+                            err,
+                        );
+
+                        err
+                    });
+            }
+
             // Leave room for the file we're about to create
             file_set.apply_retention(&self.fs, self.max_files.saturating_sub(1));
 
